@@ -54,6 +54,7 @@ var workloads = []workload{
 type opRec struct {
 	name  string
 	start time.Time
+	note  *atomic.Pointer[string] // what the workload knows about the situation the operation is in (set later, by others)
 }
 
 type worker struct {
@@ -204,8 +205,12 @@ func uniflowFrames(stack string, max int) string {
 
 // do runs one operation on the shared object: counted, watched by the watchdog, panics
 // recovered and reported.
-func (w *worker) do(name string, f func()) {
-	w.cur.Store(&opRec{name: name, start: time.Now()})
+func (w *worker) do(name string, f func()) { w.doNote(name, nil, f) }
+
+// doNote is do with a note other goroutines fill in while the operation is in flight; the
+// watchdog quotes it when the operation never returns.
+func (w *worker) doNote(name string, note *atomic.Pointer[string], f func()) {
+	w.cur.Store(&opRec{name: name, start: time.Now(), note: note})
 	defer func() {
 		w.cur.Store(nil)
 		w.e.ops.Add(1)
@@ -269,7 +274,13 @@ func (e *env) watchdog(done <-chan struct{}) {
 				}
 			}
 			sort.Strings(blocked)
-			e.finding("deadlock", fmt.Sprintf("op=%s blocked>%ds (also blocked: %s) | %s", r.name, int(e.bound.Seconds()),
+			note := ""
+			if r.note != nil {
+				if n := r.note.Load(); n != nil {
+					note = " [" + *n + "]"
+				}
+			}
+			e.finding("deadlock", fmt.Sprintf("op=%s blocked>%ds%s (also blocked: %s) | %s", r.name, int(e.bound.Seconds()), note,
 				strings.Join(dedup(blocked), ","), uniflowFrames(mine, 8)))
 			outMu.Lock()
 			fmt.Fprintf(os.Stderr, "### GOROUTINE DUMP BEGIN object=%s op=%s\n%s### GOROUTINE DUMP END\n", e.name, r.name, dump.String())
